@@ -98,7 +98,10 @@ HashCells(c) == Fold([k \in 1..(NG * ND) |-> c[<<(k - 1) \div ND + 1, ((k - 1) %
 CRows == {g \in Geos : \E d \in Dates : cells[<<g, d>>] # -1}          \* one row per geo
 CCols == {d \in Dates : \E g \in Geos : cells[<<g, d>>] # -1}          \* one column per date
 CColSeq == SetToSeq(CCols)                                             \* chronological
-CCell(g, d) == IF cells[<<g, d>>] = -1 THEN 0 ELSE cells[<<g, d>>]     \* missing cells zero
+\* the recorded magnitudes are 0..MaxVal (-1 = no record); a third of the panels record them as NEGATIVE responses
+\* (refunds, net flows): the grand total is then negative, the ordering "by decreasing mean" reverses, shares do not
+Sgn == IF (HashCells(cells) \div 7) % 3 = 0 THEN -1 ELSE 1
+CCell(g, d) == IF cells[<<g, d>>] = -1 THEN 0 ELSE Sgn * cells[<<g, d>>]   \* missing cells zero
 CTotal(g) == SumFn(CCols, [d \in CCols |-> CCell(g, d)])
 \* mean of g = CTotal(g) / |CCols|; the same denominator for every geo
 CGrand == SumFn(CRows, [g \in CRows |-> CTotal(g)])
@@ -113,7 +116,15 @@ CKept == CListed \cap CRows                                            \* ... an
 CAssignable == {g \in CKept : CTriple(g) # <<0, 0, 1>>}                \* eligible minus must-exclude
 CIndexOK(o) == Range(o) \subseteq CAssignable
 CPositions(o) == 0..(Len(o) - 1)
-CAggTS(o, S) == LET cs == CColSeq IN [k \in 1..Len(cs) |-> SumFn(S, [p \in S |-> CCell(o[p + 1], cs[k])])]
+\* A searcher restricts the object to its most recent Keep dates (data.df = data.df.iloc[:, -n_pretest_max:],
+\* tbrmatchedmarkets.py:69) before it fixes the geo index; Keep = 0: the object is used as constructed.  Keep is an
+\* input (sampled by hash).  The aggregates are sums of the rows of the object, i.e. over its remaining columns.
+Keep == LET n == Cardinality(CCols)
+            eh == IF elig.given THEN Fold([g \in AllGeos |-> elig.row[g]], 1, 11) ELSE 5
+            h == Mix(HashCells(cells), eh)
+        IN IF n > 1 /\ (h \div 3) % 3 = 0 THEN 1 + (h % (n - 1)) ELSE 0
+CWinSeq == IF Keep = 0 THEN CColSeq ELSE SubSeq(CColSeq, Len(CColSeq) - Keep + 1, Len(CColSeq))
+CAggTS(o, S) == LET cs == CWinSeq IN [k \in 1..Len(cs) |-> SumFn(S, [p \in S |-> CCell(o[p + 1], cs[k])])]
 CAggShare(o, S) == <<SumFn(S, [p \in S |-> CTotal(o[p + 1])]), CGrand>>
 CClass(o, c, t, x) == {p \in CPositions(o) : CTriple(o[p + 1]) = <<c, t, x>>}
 CCan(o, k) == {p \in CPositions(o) : CTriple(o[p + 1])[k] = 1}
@@ -142,7 +153,7 @@ None == <<>>
 Init ==
   /\ cells \in [Keys -> -1..MaxVal]
   /\ SampledCells(cells)
-  /\ \E k \in Keys : cells[k] > 0              \* sum of means > 0, otherwise shares are undefined
+  /\ \E k \in Keys : cells[k] > 0              \* sum of means # 0, otherwise shares are undefined
   /\ elig \in {NoTable} \cup {TableOf(EligCode(cells, j)) : j \in 1..EligPer}
   /\ dtype = IF (HashCells(cells) \div CellMod + EligHash(elig)) % 2 = 0 THEN "int" ELSE "str"
   /\ pc = "pivot"
@@ -151,7 +162,7 @@ Init ==
   /\ gassign = None /\ agg = None
 
 \* the frame as the code sees it: a bag of rows <<geo, date, value>>
-LongRows == {<<k[1], k[2], cells[k]>> : k \in {kk \in Keys : cells[kk] # -1}}
+LongRows == {<<k[1], k[2], Sgn * cells[k]>> : k \in {kk \in Keys : cells[kk] # -1}}
 
 \* df.pivot_table(values=.., index='geo', columns='date', fill_value=0)   (tbrmmdata.py:108)
 Pivot ==
@@ -213,11 +224,20 @@ Reconcile ==
                 /\ pc' = "ready"
   /\ UNCHANGED <<cells, dtype, elig, rows, cols, tbl, means, rowOrder, share, order, arr, arrShare, gassign, agg>>
 
+\* data.df = data.df.iloc[:, -n_pretest_max:]   (tbrmatchedmarkets.py:69; the caller of the setter below)
+Restrict ==
+  /\ pc = "ready"
+  /\ Keep > 0 /\ Len(cols) > Keep
+  /\ cols' = SubSeq(cols, Len(cols) - Keep + 1, Len(cols))
+  /\ UNCHANGED <<cells, dtype, elig, pc, rows, tbl, means, rowOrder, share, recon, assignable, order, arr, arrShare,
+                 gassign, agg>>
+
 \* geo_index setter   (tbrmmdata.py:156-184)
 PosClass(o, c, t, x) == {p \in 0..(Len(o) - 1) : Triples[recon[o[p + 1]]] = <<c, t, x>>}
 PosCan(o, k) == {p \in 0..(Len(o) - 1) : Triples[recon[o[p + 1]]][k] = 1}
 SetGeoIndex ==
   /\ pc = "ready"
+  /\ (Keep = 0 \/ Len(cols) = Keep)
   /\ LET sh == StateHash
          dflt == DefaultOrder
      IN \E o \in Orders :
@@ -246,7 +266,7 @@ Aggregate ==
   /\ pc' = "done"
   /\ UNCHANGED <<cells, dtype, elig, rows, cols, tbl, means, rowOrder, share, recon, assignable, order, arr, arrShare, gassign>>
 
-Next == Pivot \/ Means \/ Order \/ Shares \/ Reconcile \/ SetGeoIndex \/ Aggregate
+Next == Pivot \/ Means \/ Order \/ Shares \/ Reconcile \/ Restrict \/ SetGeoIndex \/ Aggregate
 Spec == Init /\ [][Next]_vars /\ WF_vars(Next)
 
 \* ---------------------------------------------------------------- properties
@@ -257,11 +277,13 @@ TypeOK ==
   /\ pc \in {"pivot", "means", "order", "shares", "reconcile", "error_construct", "ready",
              "error_index", "indexed", "done"}
   /\ dtype \in {"int", "str"}
-  /\ CGrand > 0
+  /\ CGrand # 0 /\ (CGrand > 0) = (Sgn = 1)
 
 RefinesTable ==            \* one row per geo, one column per date in chronological order, missing cells zero
   Stage(pc) >= 1 => /\ rows = CRows
-                    /\ cols = CColSeq
+                    /\ cols \in {CColSeq, CWinSeq}
+                    /\ (Stage(pc) <= 4 => cols = CColSeq)
+                    /\ (Stage(pc) >= 6 => cols = CWinSeq)
                     /\ \A i, j \in 1..Len(cols) : i < j => cols[i] < cols[j]
                     /\ DOMAIN tbl = CRows \X CCols
                     /\ \A g \in CRows, d \in CCols : tbl[<<g, d>>] = CCell(g, d)
@@ -321,11 +343,14 @@ CaseRecord ==
   IN [ng |-> NG, nd |-> ND,
       cells |-> [g \in Geos |-> [d \in Dates |-> cells[<<g, d>>]]],
       dtype |-> dtype,
+      sgn |-> Sgn,
       elig_given |-> elig.given,
       elig_rows |-> [g \in AllGeos |-> IF elig.given /\ elig.row[g] # 0 THEN Triples[elig.row[g]] ELSE <<>>],
       construct_ok |-> (pc # "error_construct"),
       rows |-> rs,
       cols |-> cs,
+      keep |-> Keep,
+      win |-> CWinSeq,
       table |-> [i \in 1..Len(rs) |-> [k \in 1..Len(cs) |-> CCell(rs[i], cs[k])]],
       totals |-> [i \in 1..Len(rs) |-> CTotal(rs[i])],
       grand |-> CGrand,
